@@ -146,8 +146,8 @@ func main() {
 	// ---- B. hand-assembled from the documented layout
 	const (
 		NOP, RET, PRINT, SETLOCAL, GETLOCAL, DEFBLOCK, ENDBLOCK, SETFIELD, GETFIELD, CONST = bcfmt.OpNOP, bcfmt.OpRET, bcfmt.OpPRINT, bcfmt.OpSETLOCAL, bcfmt.OpGETLOCAL, bcfmt.OpDEFBLOCK, bcfmt.OpENDBLOCK, bcfmt.OpSETFIELD, bcfmt.OpGETFIELD, bcfmt.OpCONST
-		NIL, ZERO, ONE, TRUE, FALSE, NOT, EQ, LT, GT, ADD, SUB, MUL, DIV, NEG, UNPLUS         = bcfmt.OpNIL, bcfmt.OpZERO, bcfmt.OpONE, bcfmt.OpTRUE, bcfmt.OpFALSE, bcfmt.OpNOT, bcfmt.OpEQ, bcfmt.OpLT, bcfmt.OpGT, bcfmt.OpADD, bcfmt.OpSUB, bcfmt.OpMUL, bcfmt.OpDIV, bcfmt.OpNEG, bcfmt.OpUNPLUS
-		JUMP, LOOP, JFALSE, POP, POPN, BIND                                                   = bcfmt.OpJUMP, bcfmt.OpLOOP, bcfmt.OpJFALSE, bcfmt.OpPOP, bcfmt.OpPOPN, bcfmt.OpBIND
+		NIL, ZERO, ONE, TRUE, FALSE, NOT, EQ, LT, GT, ADD, SUB, MUL, DIV, NEG, UNPLUS      = bcfmt.OpNIL, bcfmt.OpZERO, bcfmt.OpONE, bcfmt.OpTRUE, bcfmt.OpFALSE, bcfmt.OpNOT, bcfmt.OpEQ, bcfmt.OpLT, bcfmt.OpGT, bcfmt.OpADD, bcfmt.OpSUB, bcfmt.OpMUL, bcfmt.OpDIV, bcfmt.OpNEG, bcfmt.OpUNPLUS
+		JUMP, LOOP, JFALSE, POP, POPN, BIND                                                = bcfmt.OpJUMP, bcfmt.OpLOOP, bcfmt.OpJFALSE, bcfmt.OpPOP, bcfmt.OpPOPN, bcfmt.OpBIND
 	)
 	{
 		x := newFile("loop.bcl", "LOOP: counts a local up to 3 with a backward jump, NOPs in between")
@@ -386,7 +386,7 @@ func main() {
 		}
 		a.Op(NIL)
 		a.PatchJump(j, a.Len())
-		a.Op(PRINT) // prints false (jump taken: the value stays) 
+		a.Op(PRINT) // prints false (jump taken: the value stays)
 		a.Op(TRUE)
 		j = a.Len()
 		a.Op(JFALSE, 0).Op(POP).Op(CONST, s)
